@@ -35,6 +35,16 @@ class S2(str):
     __repr__ = __str__
 
 
+class I2(int):                    # json serialises the stored number, not what __int__ says (D40)
+    def __int__(self):
+        return 7
+
+
+class F2(float):
+    def __float__(self):
+        return 0.5
+
+
 class L(list):
     pass
 
@@ -103,6 +113,10 @@ def base_pool():
             {S('k'): 1}, {Color.RED: 'enum key'}, collections.defaultdict(list, {'a': [1]})]
     # ... whose str() differs from their contents
     out += [Shade.DARK, [Shade.DARK], {Shade.DARK: 1}, {'k': Shade.DARK}, S2('a'), {S2('k'): S2('v')}, (S2('1'), 1)]
+    out += [I2(1234), [I2(3)], F2(12.5), {'k': F2(2.0)}]
+    # a high and a low surrogate as two code points: the round trip joins them (D41); other surrogates stay
+    out += ['\ud83d\ude00', 'x\ud83d\ude00y', ['\ud83d\ude00'], {'\ud83d\ude00': 1}, {'k': '\ud83d\ude00'}, '\ude00\ud83d',
+            '\ud800', '\U0001f600', '\U0001f600\ud83d', S('\ud83d\ude00')]
     return out
 
 
